@@ -33,6 +33,8 @@ fn fixed_random_state() -> std::hash::RandomState { unsafe { std::mem::transmute
 
 pub struct MockI {
     pub ctx: Context,
+    /// number of positional arguments the context was created with
+    pub nargs: usize,
 }
 
 impl InterpreterTrait for MockI {
@@ -66,41 +68,118 @@ impl InterpreterTrait for MockI {
 
 
 // ---- contract stubs (Kani only): the i-th argument of the running built-in / the slot its result is written to ----
-static mut ARGS: Vec<Variant> = Vec::new();
-static mut RES: Option<Variant> = None;
+// RES remembers WHICH function's slot was written (a wrapper that writes to the slot of another function is caught by
+// `result_of(&m, F)` under Kani as it is natively) and HOW OFTEN (`results_written`).
+// The arguments live in a TYPED static array, not in a heap Vec: CBMC's constant propagation sees the (concrete) discriminant of
+// a Variant stored in a typed object, but not of one read back from a heap allocation -- and with an unknown discriminant every
+// `match` of the wrapper on its argument explores all seven kinds (HashMap of records, nested arrays, ...).  Use
+// `mock_with_arg1(a)` / `mock_with_arg2(a, b)` to get that benefit; `mock_with_args(vec![..])` still works (values pass through the Vec).
+const MAX_ARGS: usize = 4;
+static mut ARGS: [Option<Variant>; MAX_ARGS] = [None, None, None, None];
+static mut RES: Option<(BuiltInFunction, Variant)> = None;
+static mut RES_WRITES: usize = 0;
 
 #[allow(static_mut_refs)]
 fn stub_variables_get<'a>(_s: &'a Variables, index: usize) -> Option<&'a Variant> {
-    unsafe { ARGS.get(index) }
+    unsafe { if index < MAX_ARGS { ARGS[index].as_ref() } else { None } }
 }
 
 #[allow(static_mut_refs)]
-fn stub_set_result<V>(_c: &mut Context, _f: BuiltInFunction, value: V)
+fn stub_set_result<V>(_c: &mut Context, f: BuiltInFunction, value: V)
 where
     Variant: From<V>,
 {
-    unsafe { RES = Some(Variant::from(value)); }
+    unsafe {
+        // replace + forget: the previous content is never dropped (drop glue of a Variant is what CBMC pays for)
+        std::mem::forget(std::mem::replace(&mut RES, Some((f, Variant::from(value)))));
+        RES_WRITES += 1;
+    }
 }
 
 #[allow(static_mut_refs)]
-fn mock_with_args(args: Vec<Variant>) -> MockI {
+fn kani_reset_slots() {
+    #[cfg(kani)]
+    unsafe {
+        // replace + forget: previous contents are never dropped
+        std::mem::forget(std::mem::replace(&mut ARGS[0], None));
+        std::mem::forget(std::mem::replace(&mut ARGS[1], None));
+        std::mem::forget(std::mem::replace(&mut ARGS[2], None));
+        std::mem::forget(std::mem::replace(&mut ARGS[3], None));
+        std::mem::forget(std::mem::replace(&mut RES, None));
+        RES_WRITES = 0;
+    }
+}
+
+#[allow(static_mut_refs)]
+fn kani_set_arg(_i: usize, _a: Variant) -> Option<Variant> {
+    #[cfg(kani)]
+    unsafe {
+        std::mem::forget(std::mem::replace(&mut ARGS[_i], Some(_a)));
+        return None;
+    }
+    #[cfg(not(kani))]
+    { return Some(_a); }
+}
+
+fn native_context(args: Vec<Variant>) -> Context {
     #[allow(unused_mut)]
     let mut ctx = Context::new();
-    #[cfg(kani)]
-    unsafe { ARGS = args; }
     #[cfg(not(kani))]
     {
         ctx.begin_collecting_arguments();
         for a in args { ctx.arguments_mut().push_unnamed_by_val(a); }
         ctx.stop_collecting_arguments();
     }
-    MockI { ctx }
+    #[cfg(kani)]
+    std::mem::forget(args);
+    ctx
 }
 
+/// a fresh mock interpreter whose current context holds `args` as the positional arguments 0, 1, ... of the call;
+/// no result slot is written yet.  (May be called several times in one harness: composition of two wrappers.)
+fn mock_with_args(args: Vec<Variant>) -> MockI {
+    let nargs = args.len();
+    kani_reset_slots();
+    #[cfg(kani)]
+    {
+        assert!(nargs <= MAX_ARGS);
+        let mut i = 0;
+        for a in args {
+            kani_set_arg(i, a);
+            i += 1;
+        }
+        return MockI { ctx: native_context(Vec::new()), nargs };
+    }
+    #[cfg(not(kani))]
+    { return MockI { ctx: native_context(args), nargs }; }
+}
+
+/// the same for a call with one argument / two arguments; the values never pass through a heap Vec under Kani (see ARGS)
+fn mock_with_arg1(a0: Variant) -> MockI {
+    kani_reset_slots();
+    let mut v: Vec<Variant> = Vec::new();
+    if let Some(a) = kani_set_arg(0, a0) { v.push(a); }
+    MockI { ctx: native_context(v), nargs: 1 }
+}
+
+fn mock_with_arg2(a0: Variant, a1: Variant) -> MockI {
+    kani_reset_slots();
+    let mut v: Vec<Variant> = Vec::new();
+    if let Some(a) = kani_set_arg(0, a0) { v.push(a); }
+    if let Some(a) = kani_set_arg(1, a1) { v.push(a); }
+    MockI { ctx: native_context(v), nargs: 2 }
+}
+
+/// the value in the result slot of built-in function `_f` (None: that slot has not been written)
 #[allow(static_mut_refs)]
 fn result_of<'a>(_m: &'a MockI, _f: BuiltInFunction) -> Option<&'a Variant> {
     #[cfg(kani)]
-    unsafe { return RES.as_ref(); }
+    unsafe {
+        return match RES.as_ref() {
+            Some((g, v)) if *g == _f => Some(v),
+            _ => None,
+        };
+    }
     #[cfg(not(kani))]
     {
         let q = TypeQualifier::from(&_f);
@@ -109,6 +188,78 @@ fn result_of<'a>(_m: &'a MockI, _f: BuiltInFunction) -> Option<&'a Variant> {
     }
 }
 
+/// move the value out of the result slot of `_f` (to pass it on as the argument of another wrapper: composition harnesses).
+/// Under Kani the slot is emptied; natively the value is cloned (the real Variables has no removal).
+#[allow(static_mut_refs)]
+fn take_result(_m: &mut MockI, _f: BuiltInFunction) -> Option<Variant> {
+    #[cfg(kani)]
+    unsafe {
+        return match std::mem::replace(&mut RES, None) {
+            Some((g, v)) if g == _f => Some(v),
+            other => {
+                std::mem::forget(other);
+                None
+            }
+        };
+    }
+    #[cfg(not(kani))]
+    { return result_of(_m, _f).cloned(); }
+}
+
+/// how many result slots the wrapper has written (Kani: calls of set_built_in_function_result; natively: variables of the
+/// context beyond the arguments).  0 after an error = "nothing written to any result slot".
+#[allow(static_mut_refs)]
+fn results_written(_m: &MockI) -> usize {
+    #[cfg(kani)]
+    unsafe { return RES_WRITES; }
+    #[cfg(not(kani))]
+    { return _m.ctx.variables().len() - _m.nargs; }
+}
+
+
+// ---- capacity abstraction of std's growable buffers (Kani only, opt-in: `harness_bi!(name, unwind, std_caps, { .. })`) ----
+// `String::push` / `collect::<String>()` / `collect::<Vec<u8>>()` grow their buffer to `max(2 * cap, len + additional)`: with a
+// symbolic length (a character with code 128..255 takes two bytes) that is an allocation of SYMBOLIC size at every push, and
+// CBMC does not get through three of them.  The three stubs below replace the ALLOCATION POLICY by one that satisfies the
+// documented contract of the std function and keeps every size concrete; contents are never touched:
+//   String::new()              -> an empty string (std: capacity unspecified; here 32 bytes are reserved at once)
+//   String::reserve(n)         -> std: afterwards capacity >= len + n, content unchanged; here: ASSERTS that the capacity
+//                                 already suffices (a harness that needs more than 32 bytes fails, it does not pass silently)
+//   Vec::with_capacity(n)      -> std: an empty vector with capacity >= n; here: asserts n <= 32 and reserves 32 elements
+// The behaviour of safe code does not depend on the capacity; natively (replay) the real std runs.
+fn stub_string_new() -> String { stub_string_with_capacity(0) }
+//   String::with_capacity(n)   -> std: an empty string with capacity >= n; here: asserts n <= 32 and reserves 32 bytes
+fn stub_string_with_capacity(n: usize) -> String {
+    assert!(n <= 32, "capacity abstraction: String::with_capacity is asked for at most 32 bytes");
+    let mut v: Vec<u8> = Vec::new();
+    v.reserve_exact(32);
+    unsafe { String::from_utf8_unchecked(v) }
+}
+//   String::push_str(t)        -> std: appends the bytes of t; here: the same, byte by byte into the reserved capacity (asserted to
+//                                 suffice), without the growth path of Vec::extend_from_slice
+fn stub_string_push_str(s: &mut String, t: &str) {
+    let add = t.as_bytes();
+    assert!(s.capacity() - s.len() >= add.len(), "capacity abstraction: the 32 bytes reserved suffice for push_str");
+    unsafe {
+        let v = s.as_mut_vec();
+        let mut i = 0;
+        while i < add.len() {
+            let len = v.len();
+            std::ptr::write(v.as_mut_ptr().add(len), add[i]);
+            v.set_len(len + 1);
+            i += 1;
+        }
+    }
+}
+fn stub_string_reserve(s: &mut String, additional: usize) {
+    assert!(s.capacity() - s.len() >= additional, "capacity abstraction: the 32 bytes reserved by String::new() suffice");
+}
+fn stub_vec_with_capacity<T>(n: usize) -> Vec<T> {
+    assert!(n <= 32, "capacity abstraction: Vec::with_capacity is asked for at most 32 elements");
+    let mut v: Vec<T> = Vec::new();
+    v.reserve_exact(32);
+    v
+}
 
 /// harness_bi!(name, unwind, { ... }): a harness! with the three contract stubs of this file applied.
 #[allow(unused_macros)]
@@ -118,6 +269,19 @@ macro_rules! harness_bi {
             stub(std::hash::RandomState::new, fixed_random_state),
             stub(crate::interpreter::variables::Variables::get, stub_variables_get),
             stub(crate::interpreter::context::Context::set_built_in_function_result, stub_set_result),
+            $body);
+    };
+    // the same plus the capacity abstraction of String / Vec (see above)
+    ($name:ident, $unwind:expr, std_caps, $body:block) => {
+        harness!($name, $unwind,
+            stub(std::hash::RandomState::new, fixed_random_state),
+            stub(crate::interpreter::variables::Variables::get, stub_variables_get),
+            stub(crate::interpreter::context::Context::set_built_in_function_result, stub_set_result),
+            stub(std::string::String::new, stub_string_new),
+            stub(std::string::String::reserve, stub_string_reserve),
+            stub(std::string::String::with_capacity, stub_string_with_capacity),
+            stub(std::string::String::push_str, stub_string_push_str),
+            stub(std::vec::Vec::with_capacity, stub_vec_with_capacity),
             $body);
     };
 }
